@@ -259,6 +259,12 @@ func WorkerMain(args []string) int {
 		return 2
 	}
 	seed, _ := strconv.ParseInt(os.Getenv("VERIF_SEED"), 10, 64)
+	// the code under test prints debugging leftovers to stdout (planner:
+	// "Ascend at …"): keep the result channel clean
+	resultOut := os.Stdout
+	if devnull, err := os.OpenFile(os.DevNull, os.O_WRONLY, 0); err == nil {
+		os.Stdout = devnull
+	}
 	var c *Ctx
 	if args[1] == "replay" {
 		b, err := os.ReadFile(args[2])
@@ -319,7 +325,7 @@ func WorkerMain(args []string) int {
 	}
 	c.finish()
 	b, _ := json.Marshal(c.R)
-	w := bufio.NewWriter(os.Stdout)
+	w := bufio.NewWriter(resultOut)
 	w.WriteString("\nRESULT ")
 	w.Write(b)
 	w.WriteString("\n")
